@@ -50,7 +50,7 @@ def jarfilePhrase : Str := Gen.c18JarfilePhrase.toList
 
 /-- a character of the class `[a-z0-9\-_]` under `re.I` (Unicode case folding adds U+0130, U+0131, U+017F, U+212A);
 the set is probed on the compiled `ERROR_MESSAGE_REGEX` by the translator. -/
-def isSeg (c : Char) : Bool := Gen.c18SegChars.contains c.toNat
+def isSeg (c : Char) : Bool := Gen.c18SegRanges.any (fun r => r.1 ≤ c.toNat && c.toNat ≤ r.2)
 
 /-- Tokens of the scan for `ERROR_MESSAGE_REGEX = (/seg+(?:/seg+)+)`: `unit s` is a `/` followed by the maximal
 run `s` of segment characters, `run s` a maximal run of segment characters not preceded by `/`, `ch c` any other
